@@ -26,13 +26,15 @@ CONFIG = {
                   "acceptable namespace; mkDataset neither drops nor invents a quad; build_subject_types has an entry for every "
                   "(graph, subject); the writers never change which subject a table entry stands for and, for any input stream, no Root "
                   "subject of any graph is left unwritten at the end of serialize (roots_all_written_partial, incl. that the loop over the "
-                  "named graphs never meets a None graph name); every collection found by build_lists is a well-formed rdf:first/rest chain with one rdf:rest per "
+                  "named graphs never meets a None graph name); blank nodes deferred at the nesting cap (MAX_BNODE_NESTING, regenerated "
+                  "from /repo) are each described by a write_tree of their own and nothing stays deferred (deferred_all_written_partial, "
+                  "nothing_left_deferred; up to the model's fault flag); every collection found by build_lists is a well-formed rdf:first/rest chain with one rdf:rest per "
                   "cell; labelling lemmas incl. every blank-node cycle has a labelled node. IndentSafe (accepted indentations are Turtle "
                   "white space) holds on the checked tree (indent_safe_holds; it was refuted before /repo d9e6461, finding C04-indent-unicode-ws). "
                   "The end-to-end statement (parse(render(D)) isomorphic to D) and 'every SubTree/Annotation subject is written, nothing twice' are NOT "
                   "proved: they are checked by the round-trip differential on generated shapes.",
     "level_note": "Trusted: W3C Turtle grammar transcription (Model/TurtleTokens.lean) and C03's STRING_LITERAL_QUOTE reader (Model/NT.lean); "
-                  "extract.py regex translator and tools/extractors/c04.py (recognises shipped/fixed text of four branches, fails closed); "
+                  "extract.py regex translator and tools/extractors/c04.py (recognises shipped/fixed text of five branches incl. the nesting cap and its constant, fails closed); "
                   "native_decide for the regex obligations; Rio's Turtle/TriG parsers and formatters (third party, only observed); the "
                   "harness's isomorphism test. Streaming (non-pretty) mode is Rio's formatter: round-trip differential only. Generalized "
                   "RDF (blank-node / literal predicates, variables) is outside the property: model differential only, no oracle.",
@@ -51,7 +53,7 @@ CONFIG = {
         "unlabelled_sound_partial", "unlabelled_in_arcs", "unlabelled_one_graph",
         "cycle_tail_witness", "cycle_has_labelled", "cycle_has_labelled_holds", "cycle_has_labelled_refuted", "cycle_has_labelled_iff",
         "dataset_no_invention", "dataset_no_loss", "dataset_no_loss_wf", "every_subject_classified", "subject_types_no_invention",
-        "write_graph_roots_done", "roots_all_written_partial",
+        "write_graph_roots_done", "roots_all_written_partial", "deferred_all_written_partial", "nothing_left_deferred",
     ],
     "native_ok": [
         "integer_safe", "boolean_safe", "decimal_safe", "double_safe", "pn_local_safe", "pn_prefix_safe", "bnode_label_safe",
@@ -66,7 +68,10 @@ CONFIG = {
             "deep, nested annotations, blank nodes spanning graphs and as graph names, rdf:nil in every position) x Turtle/TriG x "
             "pretty/streaming x both API entry points x 8 Turtle-white-space indentations + 16 other ones (Unicode white space, "
             "non-white-space: must be rejected) x 8 prefix maps, in shuffled stream order; large datasets (up to ~70 subjects in one "
-            "graph, 60-item collections, 14 named graphs, 250 blank nodes, 60-deep nesting, 30-cycles); long literals assembled from "
+            "graph, 60-item collections, 14 named graphs, 250 blank nodes, 60-deep nesting, 30-cycles); blank-node chains around the "
+            "nesting cap of the pretty printer (60-70 and 126-140 links: plain, with side branches, ending in a collection, below a "
+            "collection item, two chains sharing the deep end, several chains in one tree / under an annotation; default and named "
+            "graph); long literals assembled from "
             "quotes / escapes / syntax delimiters, 13 language tags; all 1- and 2-triple datasets over {_:a,_:b,x:i,rdf:nil,1} x "
             "{x:p,rdf:first,rdf:rest} and sampled 3-5-triple ones; every datatype x lexical form (12 x 54) as single literals; IRIs built "
             "from namespace + local-name atoms x random prefix maps with distinct prefixes; generalized RDF through the pretty TriG writer "
